@@ -209,8 +209,8 @@ Print Assumptions C19_jsonl_checked_instance.
 Example C19_jsonl_ex :
   let c := [10; 49; 50; 13; 10; 32; 120; 10; 10; 34; 195; 169; 34; 10] in
   no_lone_cr c = true /\
-  jsonl_iter mini_loads Binary true false c = Ok ([JInt 12; JStr [233]], false) /\
-  jsonl_iter mini_loads Binary true true c = Ok ([JStr [233]; JInt 12], false) /\
+  jsonl_iter mini_loads Binary true false c = Ok ([JInt 12%Z; JStr [233]], false) /\
+  jsonl_iter mini_loads Binary true true c = Ok ([JStr [233]; JInt 12%Z], false) /\
   jsonl_iter mini_loads Binary false true c = Ok ([JStr [233]], true).
 Proof. exact (conj eq_refl (conj eq_refl (conj eq_refl eq_refl))). Qed.
 
@@ -219,10 +219,10 @@ Example C19_jsonl_all_kinds_ex :
   let c := [110; 117; 108; 108; 10; 102; 97; 108; 115; 101; 10; 48; 10; 34; 34; 10; 91; 93; 10; 123; 32; 125; 10;
             110; 117; 108; 10; 116; 114; 117; 101] in      (* null false 0 "" [] { } nul true *)
   jsonl_iter mini_loads Binary true false c
-  = Ok ([JNull; JBool false; JInt 0; JStr []; JCont [91; 93]; JCont [123; 125]; JBool true], false) /\
+  = Ok ([JNull; JBool false; JInt 0%Z; JStr []; JCont [91; 93]; JCont [123; 125]; JBool true], false) /\
   jsonl_iter mini_loads Binary true true c
-  = Ok ([JBool true; JCont [123; 125]; JCont [91; 93]; JStr []; JInt 0; JBool false; JNull], false) /\
-  jsonl_iter mini_loads Binary false false c = Ok ([JNull; JBool false; JInt 0; JStr []; JCont [91; 93]; JCont [123; 125]], true).
+  = Ok ([JBool true; JCont [123; 125]; JCont [91; 93]; JStr []; JInt 0%Z; JBool false; JNull], false) /\
+  jsonl_iter mini_loads Binary false false c = Ok ([JNull; JBool false; JInt 0%Z; JStr []; JCont [91; 93]; JCont [123; 125]], true).
 Proof. exact (conj eq_refl (conj eq_refl eq_refl)). Qed.
 
 (* ---- the Spec itself: "never splits anywhere else" ----------------------------------------- *)
